@@ -325,6 +325,10 @@ func typeMembers(tier string, cfg gen.Config) []member {
 		{Kind: "array", Items: &fam.Spec{Kind: "integer", Null: "after"}},
 		// formats the generator has no type for (OpenAPI width hints, e-mail): annotations, the mapping is that of the bare type
 		{Kind: "integer", Format: "int32"}, {Kind: "integer", Format: "int64"}, {Kind: "number", Format: "double"}, {Kind: "number", Format: "float"}, {Kind: "string", Format: "email"},
+		// string formats the generator has no type for stay strings; a string format on a NON-string type is an annotation (the table
+		// of library types belongs to strings only)
+		{Kind: "string", Format: "duration"}, {Kind: "string", Format: "uri"}, {Kind: "string", Format: "uuid"},
+		{Kind: "integer", Format: "date-time"}, {Kind: "number", Format: "time"}, {Kind: "boolean", Format: "ipv4"}, {Kind: "integer", Format: "date"},
 		// the anything-schema ({} / true) as a property and as array items: every JSON value is valid, the Go type is interface{}
 		{Kind: "any"}, {Kind: "array", Items: &fam.Spec{Kind: "any"}},
 	}
